@@ -17,6 +17,7 @@ func init() {
 	register("C16", "other", func(p *Program, r *Report) {
 		runC16(p, r)
 		checkBoundsProven(p, r, "C16.B1", "stylesheet.go")
+		checkLoopsMakeProgress(p, r, "C16.B2", "stylesheet.go")
 	})
 }
 
